@@ -74,7 +74,7 @@ ASSUMPTIONS = [
     'a pulse on the first ready cycle (ready never observed) counts as a protocol violation',
 ]
 
-BITWIDTHS = [1, 7, 32, 63, 64, 65, 127, 128, 200, 256]
+BITWIDTHS = [1, 7, 32, 63, 64, 65, 96, 127, 128, 129, 130, 160, 191, 192, 193, 200, 255, 256]
 BPCS = [1, 2, 4, 8, 16, 32, 64]
 SEEDW = {'lfsr': 127, 'xoroshiro': 128, 'trivium': 160}
 GEN_NAME = {'lfsr': 'prng_lfsr', 'xoroshiro': 'prng_xoroshiro128', 'trivium': 'csprng_trivium'}
